@@ -1,9 +1,22 @@
-/- echoes the FIL parse of each input line (function or program); used by the FIL self-test -/
+/- echoes the FIL parse of each input line (function, program or block translation result); used by the FIL self-test.
+   A `(btr …)` line is parsed, printed by the LEAN printer (`Fil.btrStr`) and parsed again: the echo is the printed text,
+   prefixed with `ROUNDTRIP-FAIL ` if `btr? ∘ parse ∘ btrStr` did not give the value back.
+   A line `btr-run TAB <state> TAB <btr>` answers the post line of the Lean IL semantics (`runBTR`) from that state
+   (registers of the state, bytes of its windows): the reference of tools/il_equiv_selftest.sh. -/
 import FalconModel.DriverLoop
 import FalconModel.FilIL
+import FalconModel.FilBTR
 open Falcon
 
 def handle (line : String) : String :=
+  match line.splitOn "\t" with
+  | ["btr-run", st, btr] =>
+    match MachState.parse st, Fil.readBTR btr with
+    | some m, some r =>
+      postLine (runBTR r m.toState) (m.regs.map (·.1)) (m.mem.map fun (a, bs) => (a, bs.length))
+    | none, _ => "bad-state"
+    | _, none => "bad-btr"
+  | _ =>
   match Sx.parseAll line with
   | some [x] =>
     match Fil.function? x with
@@ -11,7 +24,10 @@ def handle (line : String) : String :=
     | none =>
       match Fil.program? x with
       | some p => Fil.programStr p
-      | none => "parse-error"
+      | none =>
+        match Fil.btr? x with
+        | some r => (if Fil.btrRoundTrips r then "" else "ROUNDTRIP-FAIL ") ++ Fil.btrStr r
+        | none => "parse-error"
   | _ => "sx-error"
 
 def main : IO Unit := driverLoop handle
